@@ -228,6 +228,15 @@ type entry struct {
 	pub   event.ManifestReceived
 	err   error
 	hosts string
+	// eLease / eRm: who handed the value over and the position of that hand-over in the sender's own
+	// sequence of lease hand-overs (sends on a chan event.LeaseWon / chan mtypes.LeaseID); -1 unknown
+	from string
+	seq  int
+}
+
+type handover struct {
+	g   string
+	seq int
 }
 
 type result struct {
@@ -255,6 +264,9 @@ type inst struct {
 	byManifest map[*manifest.Manifest]*reqRec
 	glog       map[string][]entry
 	respVer    map[*dtypes.QueryDeploymentResponse]string
+	handoff    map[uintptr][]handover // per lease / lease-removal channel: the hand-overs, in send order
+	handSeq    map[string]int         // per sending goroutine: number of lease hand-overs so far
+	nrecvd     map[uintptr]int
 
 	// environment goroutine
 	fired     map[string]bool
@@ -287,6 +299,9 @@ func newInst(cfg *Config) *inst {
 		byManifest: map[*manifest.Manifest]*reqRec{},
 		glog:       map[string][]entry{},
 		respVer:    map[*dtypes.QueryDeploymentResponse]string{},
+		handoff:    map[uintptr][]handover{},
+		handSeq:    map[string]int{},
+		nrecvd:     map[uintptr]int{},
 		fired:      map[string]bool{},
 		ncalls:     map[string]int{},
 		clients:    map[string]*clientRec{},
@@ -338,16 +353,31 @@ func (in *inst) tap(ev vs.TapEvent) {
 		return
 	}
 	if ev.Send {
+		if ev.Elem == tLeaseWon || ev.Elem == tLeaseID {
+			// service.run hands a lease / a lease removal to a manager (into the channel's buffer, if it has one)
+			in.handoff[ev.Chan] = append(in.handoff[ev.Chan], handover{ev.G, in.handSeq[ev.G]})
+			in.handSeq[ev.G]++
+		}
 		return
+	}
+	origin := func() (string, int) {
+		k := in.nrecvd[ev.Chan]
+		in.nrecvd[ev.Chan]++
+		if h := in.handoff[ev.Chan]; k < len(h) {
+			return h[k].g, h[k].seq // channels are FIFO: the k-th value received is the k-th value sent
+		}
+		return "", -1
 	}
 	switch ev.Elem {
 	case tLeaseWon:
 		if v, ok := ev.Val.(event.LeaseWon); ok {
-			in.logG(ev.G, entry{k: eLease, lease: v.LeaseID})
+			g, n := origin()
+			in.logG(ev.G, entry{k: eLease, lease: v.LeaseID, from: g, seq: n})
 		}
 	case tLeaseID:
 		if v, ok := ev.Val.(mtypes.LeaseID); ok {
-			in.logG(ev.G, entry{k: eRm, lease: v})
+			g, n := origin()
+			in.logG(ev.G, entry{k: eRm, lease: v, from: g, seq: n})
 		}
 	case tBytes:
 		if v, ok := ev.Val.([]byte); ok {
@@ -703,6 +733,7 @@ type verAt struct {
 func (in *inst) checkG(g string, lg []entry, bad func(string), info map[string]int) {
 	held := map[mtypes.LeaseID]int{}
 	nheld := 0
+	var lr []*entry // lease notifications consumed so far
 	var data *dtypes.QueryDeploymentResponse
 	dataPos := -1
 	fetched := ""
@@ -729,13 +760,32 @@ func (in *inst) checkG(g string, lg []entry, bad func(string), info map[string]i
 	for pos := range lg {
 		e := &lg[pos]
 		switch e.k {
-		case eLease:
-			held[e.lease]++
-			nheld++
-		case eRm:
-			if n := held[e.lease]; n > 0 {
-				nheld -= n
-				held[e.lease] = 0
+		case eLease, eRm:
+			// Leases held = the lease notifications G has consumed so far, applied in the order in which
+			// service.run handed them over (= the order of the events on the bus), not in the order in which
+			// G happened to take them from its channels: with unbuffered channels the two coincide, but a
+			// removal that overtakes the "lease won" it belongs to must not resurrect the lease.
+			lr = append(lr, e)
+			ord := append([]*entry(nil), lr...)
+			sortable := true
+			for _, x := range ord {
+				if x.seq < 0 || x.from != ord[0].from {
+					sortable = false
+				}
+			}
+			if sortable {
+				sort.SliceStable(ord, func(i, j int) bool { return ord[i].seq < ord[j].seq })
+			}
+			held = map[mtypes.LeaseID]int{}
+			nheld = 0
+			for _, x := range ord {
+				if x.k == eLease {
+					held[x.lease]++
+					nheld++
+				} else if n := held[x.lease]; n > 0 {
+					nheld -= n
+					held[x.lease] = 0
+				}
 			}
 		case eUpdate:
 			ups = append(ups, verAt{pos, e.ver})
@@ -1008,16 +1058,30 @@ func (in *inst) versionTrail(lg []entry) string {
 }
 
 func heldStr(lg []entry) string {
-	var b []string
+	var b, h []string
+	var lr []entry
 	for _, e := range lg {
 		switch e.k {
 		case eLease:
 			b = append(b, fmt.Sprintf("+%d", e.lease.GSeq))
+			lr = append(lr, e)
 		case eRm:
 			b = append(b, fmt.Sprintf("-%d", e.lease.GSeq))
+			lr = append(lr, e)
 		}
 	}
-	return strings.Join(b, " ")
+	sort.SliceStable(lr, func(i, j int) bool { return lr[i].seq < lr[j].seq })
+	for _, e := range lr {
+		if e.k == eLease {
+			h = append(h, fmt.Sprintf("+%d", e.lease.GSeq))
+		} else {
+			h = append(h, fmt.Sprintf("-%d", e.lease.GSeq))
+		}
+	}
+	if strings.Join(b, " ") == strings.Join(h, " ") {
+		return strings.Join(b, " ")
+	}
+	return strings.Join(h, " ") + " in the order service.run handed them over; taken by the manager as " + strings.Join(b, " ")
 }
 
 func (in *inst) pubHash(e *entry) string {
